@@ -13,6 +13,7 @@ from ..core import Given, Machine
 from ..findings import is_open
 
 from raysect.optical import Spectrum  # noqa: E402
+from raysect.optical.observer import RadiancePipeline0D, SpectralRadiancePipeline0D  # noqa: E402
 from cherab.tools.spectroscopy import (Spectrometer, CzernyTurnerSpectrometer, Polychromator,  # noqa: E402
                                        PolychromatorFilter, TrapezoidalFilter)
 
@@ -53,7 +54,12 @@ RULE = ("Hypothesis strategies. hist: a state machine (20-30 steps) over Spectro
         "Czerny-Turner layout), source Spectrum with the instrument's own range/bins, a tight range with 1-300 bins, a range "
         "with margins, bins on the pixel scale (0.2-3 pixel widths) or sample points centred on pixel edges; samples random / "
         "seeded / spike / alternating; plus a constant and a linear spectrum on the same binning, the layout with adjacent "
-        "pixels merged, and the first call repeated at the end. Non-trivial: hist - at least one setter applied after the "
+        "pixels merged, a second spectrometer with another layout used in between, source spectra with more and fewer bins, "
+        "and the first call repeated at the end. Interference / repeat (all three sub-checks): while the instrument under "
+        "test is alive a second and third instrument of the same class with other generated parameters, built the same way "
+        "(in a third of the cases both with every default left to default), is read, re-parametrised through its setters "
+        "and calibrated, before or after the first use of the instrument under test; every read is made twice in a row and "
+        "must reproduce the value read earlier since the last parameter change. Non-trivial: hist - at least one setter applied after the "
         "cached setting (spectral range/bins, pipeline kwargs or pipeline classes) had been read on that instrument, and which "
         "changed that setting; ineq - at least two pixels (filter windows) whose widths differ (by more than 1e-12 relative); "
         "calib - >= 2 source bins and at least one pixel edge that is not on a source bin edge (farther than 1e-6 bin widths).")
@@ -66,6 +72,11 @@ ASSUMPTIONS = [
     "a setter call that raises is not a parameter change: afterwards the instrument must still equal a fresh one built "
     "from the unchanged parameters (if an invalid value is accepted nothing is claimed and the history stops comparing)",
     "modifying, after the call, a list / array that was handed to a constructor or setter is not a parameter change either",
+    "the pipeline settings of an instrument built in a clean process are the documented ones (class doc-strings and "
+    "cherab/tools/tests/test_spectroscopic_instruments.py): one SpectralRadiancePipeline0D named after the spectrometer; one "
+    "RadiancePipeline0D per filter named '<instrument>: <filter>' carrying that filter object",
+    "building, using or re-parametrising ANOTHER instrument is not a parameter change of this one; a value read from an "
+    "instrument stays the value until one of its own setters is called (reads are repeatable, bit for bit)",
     "a filter's window is the one it was specified with: [min, max] of the wavelength array, centre -+ window/2 for the "
     "trapezoid (2 ulp allowed for the latter); for the polychromator 'narrowest pixel / min_bins_per_pixel' reads "
     "'narrowest filter window / min_bins_per_window'",
@@ -89,6 +100,7 @@ TOLERANCES = {
     "calib.const": "4 eps (K+16) c",
     "calib.linear": "4 eps (K+17) M (samples of the line are correctly rounded: + eps/2 M)",
     "calib.reuse": "bit-identical",
+    "interference / repeat": "bit-identical (nothing is recomputed with other inputs)",
 }
 SETTER_LABELS = ["spectrometer.wavelength_to_pixel", "spectrometer.min_bins_per_pixel", "spectrometer.name",
                  "czerny.diffraction_order", "czerny.grating", "czerny.focal_length", "czerny.pixel_spacing",
@@ -104,6 +116,12 @@ READS_ALL = ["min_wavelength", "max_wavelength", "spectral_bins", "pipeline_kwar
 REQUIRED_LABELS = (["hist:kind:spectrometer", "hist:kind:czerny", "hist:kind:poly", "hist:nt:spectral", "hist:nt:kwargs",
                     "hist:nt:classes", "hist:rejected", "hist:mode:every_step", "hist:mode:sparse",
                     "hist:owned:intact", "hist:owned:mutated:w2p", "hist:kept:intact",
+                    "hist:interference:spectrometer", "hist:interference:czerny", "hist:interference:poly",
+                    "hist:interference:bare", "hist:interference:before-first-use", "hist:interference:after-first-use",
+                    "hist:repeat", "hist:repeat:calibrate-sizes",
+                    "ineq:interference", "ineq:interference:bare", "ineq:interference:before-first-use",
+                    "ineq:interference:after-first-use", "ineq:repeat", "ineq:filter:repeat",
+                    "calib:interference", "calib:interference:bare", "calib:repeat:sizes",
                     "ineq:kind:spectrometer", "ineq:kind:czerny", "ineq:kind:poly",
                     "ineq:arr:nested", "ineq:arr:descending", "ineq:arr:duplicate", "ineq:arr:touching", "ineq:arr:enclosing-later",
                     "ineq:widths:almost", "ineq:widths:uneven", "ineq:filter:trap", "ineq:filter:gen", "ineq:filter:same",
@@ -210,9 +228,9 @@ def _intok(v):
 def array_forms(values):
     f = ["list", "tuple", "f64", "strided", "rev"]
     if _f32ok(values):
-        f += ["f32", "f32"]
-    if _intok(values):
-        f += ["i64", "pyint", "i64", "pyint"]
+        f += ["f32"] * 3
+    if _intok(values):          # rare value classes: prefer the forms only they allow
+        f += ["i64", "pyint"] * 4
     return f
 
 
@@ -375,6 +393,25 @@ def instrument_params(draw, kind=None):
         p = {"filters": draw(_filters()), "mbw": draw(_mbw), "name": draw(_names)}
         fm["filters"] = draw(st.sampled_from(["list", "tuple"]))
     return {"kind": kind, "p": p, "fm": fm, "pipes": not (kind == "czerny" and _open(F_CT))}
+
+
+DEFAULTS = {"spectrometer": {"mbpp": 1, "name": ""}, "czerny": {"mbpp": 1, "name": ""}, "poly": {"mbw": 10, "name": ""}}
+
+
+def as_bare(kind, p, fm):
+    """the same instrument with every optional constructor argument left to its documented default"""
+    p = dict(p)
+    p.update(DEFAULTS[kind])
+    fm = dict(fm or {})
+    fm["omit"] = True
+    return p, fm
+
+
+def like(fm):
+    """argument form of a second instrument 'built the same way': same calling convention, plain containers"""
+    fm = fm or {}
+    return {"sc": fm.get("sc", "py"), "kw": bool(fm.get("kw")), "omit": bool(fm.get("omit")),
+            "acc": fm.get("acc", "tuple"), "filters": fm.get("filters", "list"), "outer": fm.get("outer", "tuple")}
 
 
 # ------------------------------------------------------------------------------------------------ builders / observation
@@ -607,10 +644,11 @@ def _show(v):
     return s if len(s) < 300 else s[:300] + "..."
 
 
-def calib_spectrum(fresh, seed):
+def calib_spectrum(fresh, seed, nb=None):
     """Spectrum over the range a correct instrument reports, seeded samples (used by the 'calibrate' read)."""
-    nb = 1 + int(seed) % 97
-    sp = Spectrum(float(fresh.min_wavelength), float(fresh.max_wavelength), nb)
+    nb = nb or 1 + int(seed) % 97
+    mn, mx = (fresh[0], fresh[1]) if isinstance(fresh, (list, tuple)) else (float(fresh.min_wavelength), float(fresh.max_wavelength))
+    sp = Spectrum(float(mn), float(mx), nb)
     sp.samples[:] = np.random.RandomState(int(seed) % (2 ** 31)).rand(nb)
     return sp
 
@@ -649,6 +687,26 @@ def check_ineq(ctx, inst, kind, p, filters, what):
               lambda: "bin width (max-min)/bins = (%r-%r)/%d = %r exceeds narrowest %s %r / min_bins %d = %r"
               % (mx, mn, bins, step, "window" if kind == "poly" else "pixel", narrow, nb, narrow / nb))
     return cells
+
+
+def check_pipelines(ctx, inst, kind, p, filters, pipes, what):
+    """Pipeline settings as documented (class doc-strings, in-repo unit tests): an absolute reference that does not
+    depend on what other instruments exist in the process."""
+    name = str(p["name"])
+    if kind == "poly":
+        kw = [{"name": name + ": " + f.name, "filter": f} for f in filters]
+        cls = [RadiancePipeline0D] * len(filters)
+    else:
+        kw, cls = [{"name": name}], [SpectralRadiancePipeline0D]
+    with ctx.cut(what + ":read"):
+        got_kw = read_one(inst, kind, "pipeline_kwargs", None)
+        got_cls = read_one(inst, kind, "pipeline_classes", None) if pipes else cls
+        got_p = read_one(inst, kind, "create_pipelines", None) if pipes else None
+    ctx.check(same(got_kw, kw), what + ":pipeline_kwargs", lambda: "pipeline_kwargs is %s, the parameters imply %s" % (_show(got_kw), _show(kw)))
+    ctx.check(same(got_cls, cls), what + ":pipeline_classes", lambda: "pipeline_classes is %s, the parameters imply %s" % (_show(got_cls), _show(cls)))
+    if got_p is not None:
+        want = [(c, c(**k).name, k.get("filter")) for c, k in zip(cls, kw)]      # raysect substitutes a default for an empty name
+        ctx.check(same(got_p, want), what + ":create_pipelines", lambda: "create_pipelines() gives %s, the parameters imply %s" % (_show(got_p), _show(want)))
 
 
 def width_class(cells):
@@ -704,7 +762,12 @@ def _read_args():
 def hist_params(draw):
     d = draw(instrument_params())
     d["every_step"] = draw(st.booleans())
+    d["bare"] = draw(st.sampled_from([False, False, True]))     # every default left to default (also for the other instruments)
     return d
+
+
+def _other_arg(kind):
+    return lambda: st.fixed_dictionaries({"b": instrument_params(kind), "b2": instrument_params(kind), "seed": st.integers(0, 10 ** 6)})
 
 
 @st.composite
@@ -749,6 +812,9 @@ class Hist:
         "set_invalid": lambda: st.integers(0, 59),
         "mutate_owned": lambda: st.fixed_dictionaries({"how": st.integers(0, 5), "acc": st.just(not _open(F_ACC)),
                                                        "fil": st.just(not _open(F_FIL))}),
+        "other_spectrometer": _other_arg("spectrometer"),
+        "other_czerny": _other_arg("czerny"),
+        "other_poly": _other_arg("poly"),
     }
 
     def __init__(self, ctx, params):
@@ -756,6 +822,12 @@ class Hist:
         self.kind = params["kind"]
         self.p = {k: v for k, v in params["p"].items()}
         self.fm = dict(params.get("fm") or {})
+        self.bare = bool(params.get("bare", False))
+        if self.bare:
+            self.p, self.fm = as_bare(self.kind, self.p, self.fm)
+        self.others = []          # other instruments of the same class, kept alive
+        self.snap = {}            # values read since the last parameter change
+        self.n_reads = 0
         self.pipes = bool(params.get("pipes", True))
         self.every = bool(params.get("every_step", True))
         self.filters = None
@@ -805,27 +877,48 @@ class Hist:
         self.inst = self.filters = None
         self.kept = []
         self.owned = {}
+        self.others = []
+        self.snap = {}
 
     def _hist(self):
         return "[history: setters %s; current parameters %s]" % (sorted(self.names), _show(self.p))
 
     def _read(self, whats, seed):
         ctx, kind = self.ctx, self.kind
-        fresh = self._fresh()
         aux = None
-        if "calibrate" in whats and kind != "poly":
-            with ctx.cut("fresh:range"):
-                aux = calib_spectrum(build(kind, self.p, self.filters), seed)
-        for w in whats:
-            if not applicable(kind, self.pipes, w):
-                continue
+        if "calibrate" in whats and kind != "poly":     # range a correct instrument reports (computed at the last parameter change)
+            aux = calib_spectrum(self.exp["spectral"], seed)
+        whats = [w for w in whats if applicable(kind, self.pipes, w)]
+        gots = {}
+        for w in whats:         # the instrument under test is read BEFORE the reference instrument is built
             with ctx.cut("read:" + w):
-                got = read_one(self.inst, kind, w, aux)
+                gots[w] = read_one(self.inst, kind, w, aux)
+        fresh = self._fresh()
+        for w in whats:
+            got = gots[w]
             with ctx.cut("fresh:" + w):
                 want = read_one(fresh, kind, w, aux)
             ctx.check(same(got, want), "%s:%s" % (kind, w),
                       lambda: "%s is %s, a freshly constructed instrument gives %s %s" % (w, _show(got), _show(want), self._hist()))
             self.reads.add(w)
+            self.n_reads += 1
+            if w == "calibrate":        # source spectra with more and with fewer bins in between
+                with ctx.cut("read:calibrate"):
+                    for nb in (3 * aux.bins + 7, 1):
+                        self.inst.calibrate(calib_spectrum(self.exp["spectral"], seed + nb, nb))
+                self.flags.add("repeat:calibrate-sizes")
+            with ctx.cut("read:" + w):
+                again = read_one(self.inst, kind, w, aux)
+            ctx.check(same(again, got), "%s:repeat:%s" % (kind, w),
+                      lambda: "%s read twice in a row: %s, then %s %s" % (w, _show(got), _show(again), self._hist()))
+            key = w if w != "calibrate" else "calibrate:%d" % int(seed)
+            if key in self.snap:
+                ctx.check(same(got, self.snap[key]), "%s:repeat:%s" % (kind, w),
+                          lambda: "%s is %s, it was %s when read earlier and no parameter of this instrument was changed since %s"
+                          % (w, _show(got), _show(self.snap[key]), self._hist()))
+                self.flags.add("repeat")
+            else:
+                self.snap[key] = got
             if w in SPECTRAL or w == "calibrate":
                 self.cached["spectral"] = True
             if w in ("pipeline_kwargs", "create_pipelines"):
@@ -847,6 +940,7 @@ class Hist:
     def _full(self):
         self._read([w for w in READS_ALL], 12345)
         check_ineq(self.ctx, self.inst, self.kind, self.p, self.filters, self.kind + ":ineq")
+        check_pipelines(self.ctx, self.inst, self.kind, self.p, self.filters, self.pipes, self.kind + ":documented")
 
     def invariant(self):
         if self.inst is None:
@@ -865,7 +959,8 @@ class Hist:
         if self.kind == "czerny" and not self.pipes:
             ctx.label("excluded_known")
         for n in sorted(self.names):
-            ctx.label("set:%s.%s" % (self.kind, n))
+            if not n.startswith("("):
+                ctx.label("set:%s.%s" % (self.kind, n))
         for w in sorted(self.reads):
             ctx.label("read:" + w)
         for f in sorted(self.forms | self.flags):
@@ -891,6 +986,7 @@ class Hist:
             setattr(self.inst, attr, value if arg_for_setter is None else arg_for_setter)
         self.p[key] = value
         self.names.add(attr)
+        self.snap = {}
         if owned is not None:
             self.owned = owned
             self._owned_check()
@@ -1036,7 +1132,95 @@ class Hist:
             self._read([w for w in READS_ALL if w != "calibrate"], 5)
 
 
+def compare_reads(ctx, inst, make_fresh, kind, pipes, aux, what, info):
+    whats = [w for w in READS_ALL if applicable(kind, pipes, w)]
+    gots = {}
+    for w in whats:             # read before the reference instrument is built
+        with ctx.cut("%s:read:%s" % (what, w)):
+            gots[w] = read_one(inst, kind, w, aux)
+    with ctx.cut(what + ":construct-fresh"):
+        fresh = make_fresh()
+    for w in whats:
+        got = gots[w]
+        with ctx.cut("%s:fresh:%s" % (what, w)):
+            want = read_one(fresh, kind, w, aux)
+        ctx.check(same(got, want), "%s:%s:%s" % (kind, what, w),
+                  lambda: "%s of the %s is %s, a freshly constructed instrument gives %s %s" % (w, what, _show(got), _show(want), info))
+
+
+def use_other(ctx, kind, b, b2, fm, bare, pipes, seed, what="other"):
+    """Build a second instrument of the same class from the parameter set b (built the same way as the instrument under
+    test), read everything, move it to the parameter set b2 through its setters, read everything again (it is compared
+    with fresh instruments as well). Returns the instrument (the caller keeps it alive)."""
+    pb, pb2 = dict(b["p"]), dict(b2["p"])
+    fmb = like(fm)
+    if bare:
+        pb, fmb = as_bare(kind, pb, fmb)
+    with ctx.cut(what + ":construct"):
+        fb = build_filters(pb["filters"]) if kind == "poly" else None
+        other, _ = build_formed(kind, pb, fmb, fb)
+    for step in (0, 1):
+        aux = None
+        if kind != "poly":      # the spectrum must cover the instrument: lowest / highest edge of a reference layout
+            with ctx.cut(what + ":construct-fresh"):
+                ee = build(kind, pb, fb).wavelength_to_pixel
+            aux = calib_spectrum([min(float(e[0]) for e in ee), max(float(e[-1]) for e in ee)], seed + step)
+            with ctx.cut(what + ":use"):     # the other instrument is used before anything else is built
+                other.calibrate(aux)
+        compare_reads(ctx, other, (lambda pb=dict(pb), fb=fb: build(kind, pb, fb)), kind, pipes, aux, what, "[parameters %s]" % _show(pb))
+        check_ineq(ctx, other, kind, pb, fb, "%s:%s:ineq" % (kind, what))
+        check_pipelines(ctx, other, kind, pb, fb, pipes, "%s:%s:documented" % (kind, what))
+        if step:
+            break
+        with ctx.cut(what + ":set"):
+            other.name = pb2["name"]
+            pb["name"] = pb2["name"]
+            if kind == "poly":
+                other.min_bins_per_window = pb2["mbw"]
+                fb = build_filters(pb2["filters"])
+                other.filters = list(fb)
+                pb["mbw"], pb["filters"] = pb2["mbw"], pb2["filters"]
+            else:
+                other.min_bins_per_pixel = pb2["mbpp"]
+                pb["mbpp"] = pb2["mbpp"]
+                if kind == "spectrometer":
+                    other.wavelength_to_pixel = tuple(list(e) for e in pb2["w2p"])
+                    pb["w2p"] = pb2["w2p"]
+                else:
+                    trial = dict(pb)
+                    trial["acc"] = pb2["acc"]
+                    if ct_valid(trial):
+                        other.accommodated_spectra = _acc(pb2["acc"])
+                        pb["acc"] = pb2["acc"]
+                    trial = dict(pb)
+                    trial["focal_length"] = pb2["focal_length"]
+                    if ct_valid(trial):
+                        other.focal_length = pb2["focal_length"]
+                        pb["focal_length"] = pb2["focal_length"]
+    return other
+
+
+def _do_other(self, arg):
+    """Another instrument of the same class is built, read, re-parametrised and read again while this one is alive;
+    nothing about this one may change."""
+    self._ensure()
+    if self.dead:
+        return
+    first_use = self.n_reads == 0
+    other = use_other(self.ctx, self.kind, arg["b"], arg["b2"], self.fm, self.bare, self.pipes, int(arg["seed"]))
+    self.others = (self.others + [other])[-3:]
+    self.flags.add("interference:" + self.kind)
+    self.flags.add("interference:before-first-use" if first_use else "interference:after-first-use")
+    if self.bare:
+        self.flags.add("interference:bare")
+    self.names.add("(another %s was built and used)" % self.kind)
+    self._read([w for w in READS_ALL], int(arg["seed"]) if first_use else 12345)
+
+
 def _install_ct():
+    for kind in ("spectrometer", "czerny", "poly"):
+        setattr(Hist, "do_other_" + kind, _do_other)
+        setattr(Hist, "pre_other_" + kind, (lambda self, kind=kind: self.kind == kind))
     for op, attr, key in (("set_order", "diffraction_order", "order"), ("set_grating", "grating", "grating"),
                           ("set_focal_length", "focal_length", "focal_length"), ("set_pixel_spacing", "pixel_spacing", "pixel_spacing"),
                           ("set_angle", "diffraction_angle", "angle"), ("set_acc", "accommodated_spectra", "acc")):
@@ -1052,7 +1236,14 @@ _install_ct()
 def ineq_strategy(draw):
     d = draw(instrument_params())
     d["order"] = draw(st.permutations(list(SPECTRAL)))
+    d["bare"] = draw(st.sampled_from([False, False, True]))
+    d["other"] = draw(instrument_params(d["kind"]))
+    d["other2"] = draw(instrument_params(d["kind"]))
+    d["other_first"] = draw(st.booleans())       # the other instrument is used before this one is read for the first time
     return d
+
+
+FXS = {}      # per-case scratch: id(filter) -> (points, first observation); cleared in run_ineq
 
 
 def filter_props(f, xs):
@@ -1064,17 +1255,29 @@ def filter_props(f, xs):
 
 def run_ineq(case, ctx):
     kind, p, pipes, fm = case["kind"], case["p"], bool(case.get("pipes", True)), case.get("fm") or {}
+    bare = bool(case.get("bare"))
+    if bare:
+        p, fm = as_bare(kind, p, fm)
     ctx.label("kind:" + kind, *form_labels(kind, fm))
     ctx.label(*arrangement_labels(kind, p))
     if p.get("preset"):
         ctx.label("preset:" + p["preset"])
     filters = None
+    FXS.clear()
     with ctx.cut("construct"):
         if kind == "poly":
             filters = build_filters(p["filters"])
-        a, owned = build_formed(kind, p, fm, filters)
         b = build(kind, p, filters)
+    with ctx.cut("read-reference"):      # the reference is read before any other instrument of this case exists
+        ref = {w: read_one(b, kind, w, None) for w in READS_ALL if w != "calibrate" and applicable(kind, pipes, w)}
+    with ctx.cut("construct"):
+        a, owned = build_formed(kind, p, fm, filters)
     owned_intact(ctx, owned, p, filters, kind + ":caller-data")
+    others = []
+    other_first = bool(case.get("other_first")) and "other" in case
+    if other_first:
+        others.append(use_other(ctx, kind, case["other"], case["other2"], fm, bare, pipes, 11))
+        ctx.label("interference", "interference:before-first-use")
     if kind == "poly":      # filters built in the drawn form against canonically built ones; every filter accessor
         with ctx.cut("construct-filter"):
             canon = build_filters(p["filters"], canonical=True)
@@ -1086,6 +1289,7 @@ def run_ineq(case, ctx):
             xs = [lo - 1.0, lo + 0.25 * (hi - lo), 0.5 * (lo + hi), lo + 0.9 * (hi - lo), hi + 1.0]
             with ctx.cut("filter"):
                 x, y = filter_props(f, xs), filter_props(g, xs)
+            FXS[id(f)] = (xs, x)
             ctx.check(same(x, y), "filter:form", lambda: "filter built as %s reports %s, built canonically %s" % (_show(s), _show(x), _show(y)))
             ctx.check(x[0] == str(s["name"]), "filter:name", lambda: "filter name %r, given %r" % (x[0], s["name"]))
             tol = 2.0 * float(np.spacing(hi)) if s["t"] == "trap" else 0.0
@@ -1097,15 +1301,39 @@ def run_ineq(case, ctx):
     with ctx.cut("read"):
         got = {w: read_one(a, kind, w, None) for w in case["order"]}      # settings read in the drawn order
     cells = check_ineq(ctx, a, kind, p, filters, kind)
-    for w in READS_ALL:
-        if w == "calibrate" or not applicable(kind, pipes, w):
-            continue
-        with ctx.cut("read:" + w):
-            x, y = read_one(a, kind, w, None), read_one(b, kind, w, None)
-        ctx.check(same(x, y), kind + ":" + w, lambda: "instrument built with arguments in the form %s differs from the canonically "
-                                                   "built one in %s: %s / %s" % (fm, w, _show(x), _show(y)))
-        if w in got:
-            ctx.check(same(got[w], x), kind + ":order:" + w, lambda: "%s depends on the order of reading: %s / %s" % (w, _show(got[w]), _show(x)))
+    check_pipelines(ctx, a, kind, p, filters, pipes, kind + ":documented")
+    first = {}
+    for rnd in (0, 1):
+        for w in READS_ALL:
+            if w == "calibrate" or not applicable(kind, pipes, w):
+                continue
+            with ctx.cut("read:" + w):
+                x, y = read_one(a, kind, w, None), read_one(b, kind, w, None)
+            ctx.check(same(x, y), kind + ":" + w, lambda: "instrument built with arguments in the form %s differs from the canonically "
+                                                       "built one in %s: %s / %s" % (fm, w, _show(x), _show(y)))
+            ctx.check(same(x, ref[w]), kind + ":interference:" + w,
+                      lambda: "%s is %s; the reference instrument gave %s before any other instrument of this case existed"
+                      % (w, _show(x), _show(ref[w])))
+            if w in got:
+                ctx.check(same(got[w], x), kind + ":order:" + w, lambda: "%s depends on the order of reading: %s / %s" % (w, _show(got[w]), _show(x)))
+            if rnd:
+                ctx.check(same(x, first[w]), kind + ":repeat:" + w, lambda: "%s was %s, after another instrument was used it is %s" % (w, _show(first[w]), _show(x)))
+            first.setdefault(w, x)
+        if rnd or "other" not in case:
+            break
+        # a second (and third) instrument of the same class, other parameters, built the same way, used in between
+        others.append(use_other(ctx, kind, case["other2"], case["other"], fm, bare, pipes, 12))
+        ctx.label("interference", "interference:after-first-use", "repeat")
+        if bare:
+            ctx.label("interference:bare")
+    if kind == "poly":      # every filter evaluated again after all the other filters were built and evaluated
+        for f, s in zip(filters, p["filters"]):
+            if s["t"] != "same":
+                with ctx.cut("filter"):
+                    again = filter_props(f, FXS[id(f)][0])
+                ctx.check(same(again, FXS[id(f)][1]), "filter:repeat", lambda: "filter %s reports %s, the first time %s" % (_show(s), _show(again), _show(FXS[id(f)][1])))
+                ctx.label("filter:repeat")
+        FXS.clear()
     owned_intact(ctx, owned, p, filters, kind + ":caller-data")
     if kind == "czerny" and not pipes:
         ctx.label("excluded_known")
@@ -1140,7 +1368,8 @@ def calib_strategy(draw):
         samples = {"kind": "alt", "hi": draw(_logu(1e-3, 1e6)), "lo": draw(st.sampled_from([0.0, 0.0, 0.5])), "phase": draw(st.integers(0, 1))}
     else:
         samples = {"kind": "rng", "seed": draw(st.integers(0, 2 ** 31 - 1)), "hi": draw(_logu(1e-3, 1e6))}
-    return {"layout": lay, "range": rng, "lo_m": draw(_logu(1e-3, 50.0)), "hi_m": draw(_logu(1e-3, 50.0)), "bins": bins,
+    other = {"w2p": draw(layout(12)), "bins": draw(st.integers(1, 200)), "seed": draw(st.integers(0, 2 ** 31 - 1))}
+    return {"layout": lay, "other": other, "range": rng, "lo_m": draw(_logu(1e-3, 50.0)), "hi_m": draw(_logu(1e-3, 50.0)), "bins": bins,
             "scale": draw(st.floats(0.2, 3.0)), "samples": samples, "const": draw(_logu(1e-6, 1e6)),
             "lin_a": draw(st.floats(0.1, 10.0)), "lin_u": draw(st.floats(-0.9, 3.0))}
 
@@ -1225,7 +1454,8 @@ def run_calib(case, ctx):
             inst = build("czerny", lay["p"])
             ctx.label("layout:czerny")
         else:
-            inst = Spectrometer(tuple(list(e) for e in lay["w2p"]), lay["mbpp"])
+            bare = lay["mbpp"] == 1          # every default left to default
+            inst = Spectrometer(tuple(list(e) for e in lay["w2p"])) if bare else Spectrometer(tuple(list(e) for e in lay["w2p"]), lay["mbpp"])
             ctx.label("layout:edges")
         edges = [[float(x) for x in e] for e in inst.wavelength_to_pixel]
     if lay["kind"] == "edges":
@@ -1272,6 +1502,30 @@ def run_calib(case, ctx):
     pl = PiecewiseLinear(xs, sp.samples)
     cal, raw = _calibrate(ctx, inst, sp, "calibrate", shapes, raw=True)
     first = [c.copy() for c in cal]
+
+    # interference / repeat: another spectrometer (other layout, built the same way) is calibrated with its own spectrum,
+    # this one with spectra of more and of fewer bins; the first call is repeated right away and at the very end
+    oth = case.get("other")
+    if oth:
+        ob = [[float(x) for x in e] for e in oth["w2p"]]
+        with ctx.cut("other:construct"):
+            if lay["kind"] == "edges" and lay["mbpp"] != 1:
+                inst_b = Spectrometer(tuple(list(e) for e in ob), lay["mbpp"])
+            else:
+                inst_b = Spectrometer(tuple(list(e) for e in ob))
+            sp_b = Spectrum(min(e[0] for e in ob) - 0.5, max(e[-1] for e in ob) + 0.5, int(oth["bins"]))
+            sp_b.samples[:] = np.random.RandomState(int(oth["seed"])).rand(int(oth["bins"])) * 7.0
+        first_b = [c.copy() for c in _calibrate(ctx, inst_b, sp_b, "other:calibrate", [len(e) - 1 for e in ob])]
+        for nb in (3 * bins + 5, max(1, bins // 3)):
+            big = Spectrum(smin, smax, nb)
+            big.samples[:] = np.random.RandomState(int(oth["seed"]) % 1000 + nb).rand(nb)
+            _calibrate(ctx, inst, big, "calibrate-other-size", shapes)
+        rep = _calibrate(ctx, inst, sp, "calibrate-repeat", shapes)
+        ctx.check(same(rep, first), "interference", lambda: "calibrate() after another spectrometer was used and after spectra with %d and %d bins "
+                                                         "gives %s, the first time %s" % (3 * bins + 5, max(1, bins // 3), _show(rep), _show(first)))
+        ctx.label("interference", "repeat:sizes")
+        if lay["kind"] == "edges" and lay["mbpp"] == 1:
+            ctx.label("interference:bare")
 
     # (a) value * width == exact integral of the spectrum over the pixel
     ints, tols = [], []
@@ -1351,6 +1605,10 @@ def run_calib(case, ctx):
               "reuse:spectrum", "calibrate() modified the source spectrum")
     again = _calibrate(ctx, inst, sp, "calibrate-again", shapes)
     ctx.check(same(again, first), "reuse:repeat", lambda: "repeating the first calibrate() call gives %s, first time %s" % (_show(again), _show(first)))
+    if oth:
+        again_b = _calibrate(ctx, inst_b, sp_b, "other:calibrate-again", [len(e) - 1 for e in ob])
+        ctx.check(same(again_b, first_b), "interference:other", lambda: "the other spectrometer: repeating its calibrate() call gives %s, first time %s"
+                  % (_show(again_b), _show(first_b)))
 
     # classes
     una = False
@@ -1370,7 +1628,7 @@ def run_calib(case, ctx):
 
 
 SUBCHECKS = {
-    "hist": Machine(Hist, quick=1200, thorough=15000, steps=(20, 30), params=hist_params),
-    "ineq": Given(ineq_strategy, run_ineq, quick=3000, thorough=40000),
+    "hist": Machine(Hist, quick=1000, thorough=12000, steps=(20, 30), params=hist_params),
+    "ineq": Given(ineq_strategy, run_ineq, quick=2400, thorough=30000),
     "calib": Given(calib_strategy, run_calib, quick=2400, thorough=30000),
 }
